@@ -1,0 +1,16 @@
+//go:build verif
+
+// Contracts for package mm, read as text by /verif/engine (govc); no code.
+
+package mm
+
+//@ mode bv
+
+// allocState stands for the whole state of whichever frame allocator is
+// registered; callers outside pmm only need to know that allocating a frame
+// touches nothing else.
+//@ ghost allocState uintptr
+
+//@ func AllocFrame() (f Frame, err *kernel.Error)
+//@   trusted
+//@   modifies allocState
